@@ -421,6 +421,14 @@ def _len_guarded(t: Tracer, guards, measured: str) -> bool:
     return False
 
 
+def _range_guarded(t: Tracer, guards, measured: str) -> bool:
+    for g in guards:
+        for l, op, r, en, _ in _guard_rels(t, g):
+            if not en and measured in (l, r) and op in ("<=", "<", ">=", ">"):
+                return True
+    return False
+
+
 def r2_truncation(ctx):
     """(iv) nothing on a write path silently cuts the value: a slice with an upper bound or a struct 's'/'p'
     pack applied to (a representation of) the value is dominated by a rejecting length test of that very
@@ -463,6 +471,16 @@ def r2_truncation(ctx):
                         cut = n.args[1]
                     elif _struct_attr_truncates(repo, ci, rs):
                         cut = n.args[0]
+                if cut is None and isinstance(n, ast.BinOp) and isinstance(n.op, (ast.BitAnd, ast.Mod)):
+                    # val & 0xFF / val % 256 wraps an out-of-range number instead of rejecting it
+                    for val_, k_ in ((n.left, n.right), (n.right, n.left)):
+                        is_mask = (isinstance(k_, ast.Constant) and isinstance(k_.value, int) and not isinstance(k_.value, bool)) \
+                            or bool(SPEC_PATH.fullmatch(t.sym(k_, sc, fr)))
+                        if is_mask and t.sym(val_, sc, fr) == "<value>":
+                            seen.append(1)
+                            if not _range_guarded(t, st.guards, "<value>"):
+                                bad.append(f"{norm(n)} wraps <value>")
+                    continue
                 if cut is None:
                     continue
                 measured = t.sym(cut, sc, fr)
@@ -476,7 +494,7 @@ def r2_truncation(ctx):
         t.pre_stmt_hooks.append(pre)
         t.run(s, sp, value_param=vp)
         ctx.stats["C08.R2.truncating operations on values"] = ctx.stats.get("C08.R2.truncating operations on values", 0) + len(seen)
-        ctx.ob("C08.R2", f"{label}.serialize: nothing silently cuts the value (slice / struct 's' pack / zip against a spec table) without a "
+        ctx.ob("C08.R2", f"{label}.serialize: nothing silently cuts the value (slice / struct 's' pack / zip against a spec table / integer mask) without a "
                          f"rejecting length test of that same representation", not bad, s.where,
                "; ".join(sorted(set(bad))) + ": an over-long value would be written truncated instead of rejected")
 
@@ -712,14 +730,18 @@ def r3(ctx):
     ctx.floor("C08.R3", "classes reporting a fixed size", checked, 7)
     # the Struct equivalence used above: both struct objects come from the same format
     init = repo.fn("Struct.__init__", SER)
+    from .common import class_methods_reachable
     fmts = set()
-    for st in stores(init.node, into_defs=False):
-        if st.path in ("self._be_struct", "self._le_struct") and st.value is not None:
-            cs_ = [c for c in walk(st.value) if isinstance(c, ast.Call) and (ap(c.func) or "").endswith("Struct")]
-            for c in cs_:
-                fmts.add(frozenset(n.id for n in ast.walk(c) if isinstance(n, ast.Name)) - {"struct"})
+    n_structs = 0
+    for f_ in class_methods_reachable(repo, init, depth=2):
+        prm = set(_params(f_)) | {a.arg for a in f_.node.args.args}
+        for c in [x for x in walk(f_.node) if isinstance(x, ast.Call) and (ap(x.func) or "").endswith("Struct") and x.args]:
+            n_structs += 1
+            # which of the enclosing function's parameters the format is made of (module constants = prefixes)
+            fmts.add(frozenset(n.id for n in ast.walk(c.args[0]) if isinstance(n, ast.Name) and n.id in prm))
     ctx.ob("C08.R3", "serialization.Struct: _le_struct and _be_struct are built from the same format",
-           len(fmts) == 1 and bool(next(iter(fmts))), init.where, f"format sources {sorted(map(sorted, fmts))}")
+           n_structs >= 1 and len(fmts) == 1 and bool(next(iter(fmts))), init.where,
+           f"format sources {sorted(map(sorted, fmts))}")
 
 
 def _calc_terms(repo, ci: ClassInfo, cs: FuncInfo):
@@ -1559,6 +1581,72 @@ def r16(ctx):
                                               "something else (or not where it wrote the terminator)")
 
 
+# ----------------------------------------------------------------------------- R17: presence markers
+
+_READ_OF = re.compile(r"<stream:main>\.read\((.+)\)")
+
+
+def r17(ctx):
+    repo = ctx.repo
+    ctx.rule("C08.R17", "a marker says what the writer does: where the reader decides by the truth of a field it just "
+                        "read whether the next field follows, the value the writer puts into that marker field is the "
+                        "very test under which it writes the next field (not a different question about the same value)")
+    n = 0
+    for label, ci, s, d, sp, dp in discover_pairs(ctx):
+        if sp is None or dp is None or label in R1_EXCEPTIONS:
+            continue
+        # reader: marker spec -> specs whose read it gates by truthiness
+        tr = Tracer(repo, ci, "main")
+        gated: Dict[str, Set[str]] = {}
+
+        def rhook(tok, node, st, fr, sid, gated=gated):
+            if sid != "main" or tok[0] != "E":
+                return
+            for v in st.pc.values():
+                m = _READ_OF.fullmatch(v[2])
+                if m and m.group(1) != tok[1]:
+                    gated.setdefault(m.group(1), set()).add(tok[1])
+        tr.event_hooks.append(rhook)
+        tr.run(d, dp)
+        if not gated:
+            continue
+        vp = (_params(s) or [None])[0]
+        tw = Tracer(repo, ci, "main")
+        verdicts: Dict[Tuple[str, str], List[Tuple[bool, str]]] = {}
+        marks_key = "\x00marks"
+
+        def whook(tok, node, st, fr, sid, tw=tw, gated=gated, verdicts=verdicts):
+            if sid != "main" or tok[0] != "E" or not isinstance(node, ast.Call):
+                return
+            attr = node.func.attr if isinstance(node.func, ast.Attribute) else None
+            arg = node.args[1] if attr == "write" and len(node.args) > 1 else node.args[0] if attr == "serialize" and node.args else None
+            if tok[1] in gated and arg is not None:
+                st.env[marks_key + tok[1]] = "\x00".join(map(str, tw.gate_of(arg, st, fr)))
+            for marker, payloads in gated.items():
+                wrote = st.env.get(marks_key + marker)
+                if tok[1] in payloads and isinstance(wrote, str):
+                    base, kind = wrote.split("\x00", 1)
+                    if "<value>" not in base:
+                        continue
+                    tests = set()
+                    for g_ in tw.gates_at(st):
+                        if g_[0] == base:
+                            tests.add(str(g_[1]))
+                    if tests:
+                        verdicts.setdefault((marker, tok[1]), []).append((kind in tests, f"marker carries {kind} of {base}, "
+                                                                      f"payload written under {sorted(tests)}"))
+        tw.event_hooks.append(whook)
+        tw.run(s, sp, value_param=vp)
+        for marker, payloads in sorted(gated.items()):
+            for payload in sorted(payloads):
+                vs = verdicts.get((marker, payload), [])        # empty: the writer's test is not about the same expression
+                n += 1
+                ctx.ob("C08.R17", f"{label}: the value written to marker {marker} is the test under which {payload} is written",
+                       all(v for v, _ in vs), s.where, "; ".join(sorted({m for v, m in vs if not v})) +
+                       ": values on which the two answers differ are framed one way and parsed the other")
+    ctx.floor("C08.R17", "marker-gated fields", n, 1)
+
+
 def run(ctx):
     r1(ctx)
     r2(ctx)
@@ -1577,6 +1665,7 @@ def run(ctx):
     r14(ctx)
     r15(ctx)
     r16(ctx)
+    r17(ctx)
     ctx.assume("read(write(v)) == v over generated spec trees and values is not decided statically; branch "
                "conditions of the two directions are not compared (a flipped test is a value-level fault)")
     ctx.assume("comprehension / generator events are placed where the comprehension is written; closures returned "
